@@ -88,24 +88,6 @@ def p_syntax_dup_group_re2(case, rec, exp):
     return pat_text(case).endswith("(?<n>a)(?<n>b)") and o.get("A") == "ok" and o.get("B") == "SyntaxError"
 
 
-def p_replace_sticky_beyond_panic(case, rec, exp):
-    ob = rec.get("obs") or ""
-    f = case.get("flags", "")
-    # ASCII subject: Substring past the end ("slice bounds out of range"); non-ASCII subject or u flag: a rune /
-    # position slice is indexed past its end ("index out of range")
-    if case.get("kind") != "run" or not (ob.startswith("HOSTPANIC: runtime error: index out of range")
-                                          or ob.startswith("HOSTPANIC: runtime error: slice bounds out of range")):
-        return False
-    if "y" not in f or "g" in f or case.get("start", 0) <= len(units(case, "subj")):
-        return False
-    for op in case.get("ops", []):
-        if op["o"] in ("replace", "replaceFn"):
-            return True
-        if op["o"] not in ("search", "split", "matchAll"):
-            return False
-    return False
-
-
 def run_case(case, rec, exp):
     if case.get("kind") != "run":
         return None, -1
@@ -132,7 +114,6 @@ def explained(case, rec, exp):
     re2 = o.get("engA", "").startswith("re2")
     nonascii = not is_ascii(subj)
     shape205 = ("\\b" in p or "\\B" in p) and any(c in WORDISH for c in subj)
-    shape206 = "u" in f and bool(case.get("names")) and re2 and nonascii
     shape209 = bool(NEG_SHORTHAND_IN_CLASS.search(p))
     shape210 = "." in p and "s" not in f and any(c in (0x2028, 0x2029) for c in subj)
     shape_n1 = bool(QUANTIFIED_GROUP.search(p)) and re2
@@ -166,6 +147,8 @@ def explained(case, rec, exp):
                 out.add("C20-N2")
             elif shape_n4 and a is not None and (b is None or b[0] > a[0]):
                 out.add("C20-N4")
+            elif shape_n1 and "|" in p and a is not None and b is not None and a[0] == b[0] and b[1] < a[1]:
+                out.add("C20-N1")   # regexp2 ends the loop at an empty iteration instead of trying the later alternatives
             else:
                 return None
             continue
@@ -182,15 +165,11 @@ def explained(case, rec, exp):
                     return None
             out.add("C20-N1")
         if has_groups(x) != has_groups(y):
-            if not shape206 or has_groups(x):
-                return None
-            out.add("F206")
+            return None
     if tabs_differ != found:
         return None                      # a table difference that the summary does not show (or vice versa)
-    if code & 2:                         # some match is not well-formed: only the missing groups object is recorded
-        if not shape206:
-            return None
-        out.add("F206")
+    if code & 2:                         # some match is not well-formed: never a recorded finding
+        return None
     # ---- path level: per op
     cf = [cfg_ops(o, k) for k in range(4)]
     if any(c is None for c in cf):
@@ -199,10 +178,7 @@ def explained(case, rec, exp):
         if tabs_differ:
             return out or None
         ok = (not code & 4 or code & 256) and (not code & 16 or code & 512) and code & (4 | 16)
-        if ok and "g" in f and "y" in f and has_empty_match(o):
-            out.add("F202")
-            return out
-        if ok and "g" in f and "y" not in f and has_empty_match(o) and re2 and code & 4 and not code & 16:
+        if ok and "g" in f and has_empty_match(o) and re2 and code & 4 and not code & 16:
             out.add("F201")
             return out
         return None
@@ -218,18 +194,20 @@ def explained(case, rec, exp):
         if out and i > 0 and len({json.dumps(c[i - 1].get("li")) for c in cf}) > 1:
             break         # an explained deviation has left different lastIndex values behind
         k = op["o"]
-        if k in ("match", "replace", "replaceFn") and "g" in f and "y" not in f and empty and re2 and r[1] == r[2] == r[3]:
+        if k in ("match", "replace", "replaceFn") and "g" in f and empty and re2 and r[1] == r[2] == r[3]:
             out.add("F201")
-        elif k in ("match", "replace", "replaceFn") and "g" in f and "y" in f and empty and r[1] == r[3]:
-            out.add("F202")
-        elif k == "split" and empty and r[1] == r[3]:
-            out.add("F203")
-        elif k in ("replace", "replaceFn") and "g" not in f and nonascii and ("y" in f or "u" in f) and r[1] == r[3]:
-            out.add("F204")
         elif r[1] == r[2] == r[3] and re2 and shape205:
             out.add("F205")   # RE2 find-all route vs regexp2 (used from every lastIndex > 0, so the tables agree)
         elif r[1] == r[2] == r[3] and re2 and shape210:
             out.add("F210")
+        elif r[1] == r[2] == r[3] and re2 and shape209:
+            out.add("F209")
+        elif r[1] == r[2] == r[3] and re2 and shape_n3:
+            out.add("C20-N3")
+        elif r[1] == r[2] == r[3] and re2 and shape_n2:
+            out.add("C20-N2")
+        elif r[1] == r[2] == r[3] and re2 and shape_n4:
+            out.add("C20-N4")
         else:
             return None
     return out or None
@@ -256,13 +234,8 @@ PREDICATES = {
     "C20.dot_matches_line_separator_regexp2": _p("F210"),
     "C20.syntax_annexb_accepted_under_u": p_syntax_annexb_u,
     "C20.syntax_duplicate_group_name_re2": p_syntax_dup_group_re2,
-    "C20.replace_sticky_lastindex_beyond_length_panics": p_replace_sticky_beyond_panic,
     "C20.re2_findall_drops_empty_match_after_match": _p("F201"),
-    "C20.sticky_global_fast_path_empty_match": _p("F202"),
-    "C20.split_fast_path_regexp2_list": _p("F203"),
-    "C20.replace_nonglobal_fast_path_limit": _p("F204"),
     "C20.word_boundary_nonascii_engines_differ": _p("F205"),
-    "C20.named_groups_lost_re2_unicode": _p("F206"),
 }
 
 
@@ -380,7 +353,8 @@ CFG = {
     "theorem_names": ["advance_string_index_spec", "advance_boundary", "valid_flags_spec", "goja_flags_eq_valid_flags",
                       "match_wf_sound", "posmap_bailout_iff", "posmap_correct", "posmap_only_boundaries", "posmap_monotone",
                       "posmap16_correct", "lastIndex_in_bounds", "search_paths_agree", "global_loop_terminates",
-                      "protocol_paths_agree_match_g", "protocol_paths_agree_replace_g", "protocol_paths_agree_split"],
+                      "protocol_paths_agree_match_g", "protocol_paths_agree_replace_g", "protocol_paths_agree_replace_one",
+                      "protocol_paths_agree_split", "protocol_paths_agree_split_rx2"],
     "allowed_axioms": [],
     "trusted_base": [
         "Coq 8.16.1 kernel + vm_compute; theorems closed under the global context (no axioms)",
@@ -393,14 +367,15 @@ CFG = {
         "lastIndex is an integer (ToLength on integers); replacement is the template [$&] / an equivalent function",
     ],
     "manifest": {
-        "text": ("proof (partial): 33 axiom-free theorems over goja's own RegExp glue, for EVERY abstract engine whose results pass the "
+        "text": ("proof (partial): 26 axiom-free theorems over goja's own RegExp glue, for EVERY abstract engine whose results pass the "
                  "verified validator match_wf: UTF-8/UTF-16 position maps are exact and total on code-point boundaries, reject other offsets "
                  "and bail out exactly on lone surrogates; AdvanceStringIndex = spec and preserves boundaries; the flag loop = duplicate-free "
                  "subset of gimsuy; lastIndex stays in bounds, resets on failure, sticky matches AT lastIndex; the global match/replace loops "
-                 "terminate; optimised path = generic path for search, match-g and replace-g (regexp2 iteration) and split (Go FindAll list, "
-                 "leftmost-scan engine, ASCII subject); the three places where the optimised path differs on this tree are refuted by "
-                 "computation (F201-F203).  Engine and path independence of /repo itself are checked differentially on every run: 4 "
-                 "configurations x per-start exec tables against the generic drivers evaluated by vm_compute"),
+                 "terminate; optimised path = generic path for search, match and replace with g (with or without y, regexp2 iteration), "
+                 "replace without g (both engines, every lastIndex and subject), split over Go's FindAll list (ASCII) and over regexp2's list "
+                 "(leftmost-scan engine, no u); the one place where the optimised path still differs (Go FindAll drops an empty match "
+                 "adjacent to the previous match, F201) is refuted by computation.  Engine and path independence of /repo itself are "
+                 "checked differentially on every run: 4 configurations x per-start exec tables against the generic drivers by vm_compute"),
         "note": ("trusted: Coq kernel + vm_compute; the transcription in coq/C20/Model.v; the harness and verif_hooks_c20.go; the two regex engines "
                  "are external code whose agreement is sampled, not proved"),
         "technique": "Rocq theorems over an abstract-engine model of the glue + verified result validator + 4-way differential correspondence via vm_compute",
